@@ -306,14 +306,25 @@ def compileDepth (e : Datum) : Nat := max (transformDepth e) (compileExprDepth e
 /-- the direction in which a family nests -/
 inductive Dir
   | car | cdr | vec | quote
+  /-- a flat list whose elements are shallow aggregates (pairs and small vectors) -/
+  | cdrPairs
+  /-- a flat list whose last cdr is an atom instead of `()` -/
+  | cdrDotted
 deriving DecidableEq, Repr
 
 def one : Datum := .num (.fix 1)
+def two : Datum := .num (.fix 2)
+
+/-- element `i` (counted from the end of the list) of the `cdrPairs` family: `(1 . 2)` for even `i`,
+    `#(1 2)` for odd `i` — separately allocated in every copy of the list -/
+def pairsElem (i : Nat) : Datum :=
+  if i % 2 = 0 then .pair one two else .vec (.pair one (.pair two .nil))
 def zero : Datum := .num (.fix 0)
 def sym (s : String) : Datum := .sym s.toList
 
 /-- `nest dir n`: `()` wrapped `n` times in a one-element list / `n` ones / `#()` wrapped `n`
-    times in a one-element vector / `x` quoted `n` times -/
+    times in a one-element vector / `x` quoted `n` times / a list of `n` elements `(1 . 2)`, `#(1 2)`
+    alternating / `(1 … 1 . 2)` with `n` ones -/
 def nest : Dir → Nat → Datum
   | .car, 0 => .nil
   | .car, n+1 => .pair (nest .car n) .nil
@@ -323,6 +334,10 @@ def nest : Dir → Nat → Datum
   | .vec, n+1 => .vec (.pair (nest .vec n) .nil)
   | .quote, 0 => sym "x"
   | .quote, n+1 => .pair (sym "quote") (.pair (nest .quote n) .nil)
+  | .cdrPairs, 0 => .nil
+  | .cdrPairs, n+1 => .pair (pairsElem n) (nest .cdrPairs n)
+  | .cdrDotted, 0 => two
+  | .cdrDotted, n+1 => .pair one (nest .cdrDotted n)
 
 /-- `(+ 1 (+ 1 … 0))` -/
 def nestApp : Nat → Datum
@@ -361,6 +376,20 @@ def dotToks : Nat → List Tk → List Tk
   | 0, rest => .lp :: .rp :: rest
   | n+1, rest => .lp :: .atom :: .dot :: dotToks n (.rp :: rest)
 
+/-- the text of `pairsElem i`: `(1 . 2)` or `#(1 2)` -/
+def pairsElemToks (i : Nat) (rest : List Tk) : List Tk :=
+  if i % 2 = 0 then .lp :: .atom :: .dot :: .atom :: .rp :: rest
+  else .hp :: .atom :: .atom :: .rp :: rest
+
+/-- the elements `n-1`, …, `0` of the `cdrPairs` family -/
+def pairsToks : Nat → List Tk → List Tk
+  | 0, rest => rest
+  | n+1, rest => pairsElemToks n (pairsToks n rest)
+
+/-- `(1 … 1 . 2)`; for `n = 0` the datum is the atom `2` -/
+def dottedToks (n : Nat) : List Tk :=
+  if n = 0 then [.atom] else .lp :: atoms n [.dot, .atom, .rp]
+
 /-- `(+ 1 `ⁿ `0` `)`ⁿ -/
 def appToks : Nat → List Tk → List Tk
   | 0, rest => .atom :: rest
@@ -372,6 +401,8 @@ def nestToks : Dir → Nat → List Tk
   | .cdr, n => .lp :: atoms n [.rp]
   | .vec, n => vecToks n []
   | .quote, n => quoteToks n []
+  | .cdrPairs, n => .lp :: pairsToks n [.rp]
+  | .cdrDotted, n => dottedToks n
 
 /-! ## The instrumented functions on the families, and their closed forms
 
@@ -421,10 +452,33 @@ def closedForm : Fn → Dir → Nat → Nat
   | .drop, .cdr, n => n + 1
   | .drop, .vec, n => n + 1
   | .drop, .quote, n => 2 * n + 1
+  | .parse, .cdrPairs, n => if n = 0 then 2 else 6
+  | .put, .cdrPairs, n => if n = 0 then 2 else 2 * n + 4
+  | .get, .cdrPairs, n => if n = 0 then 2 else 6
+  | .mark, .cdrPairs, n => if n = 0 then 1 else 3
+  | .equal, .cdrPairs, n => if n = 0 then 1 else 5
+  | .fmt, .cdrPairs, n => if n = 0 then 1 else 3
+  | .drop, .cdrPairs, n => if n = 0 then 1 else n + 2
+  | .parse, .cdrDotted, n => if n = 0 then 1 else 4
+  | .put, .cdrDotted, n => 2 * n + 2
+  | .get, .cdrDotted, n => if n = 0 then 2 else 4
+  | .mark, .cdrDotted, n => if n = 0 then 1 else 2
+  | .equal, .cdrDotted, n => if n = 0 then 1 else 3
+  | .fmt, .cdrDotted, n => if n = 0 then 1 else 2
+  | .drop, .cdrDotted, n => n + 1
 
-/-- is the recursion of `f` bounded in direction `dir` (the loop direction of `f`)? -/
+/-- is the recursion of `f` bounded in direction `dir` (the loop direction of `f`)? The three flat
+    directions — a list of atoms, a list of shallow aggregates, a dotted list — are loops of the
+    reader, `get_as_cell`, the marker, `equal?` and the printer. -/
 def bounded : Fn → Dir → Bool
   | .parse, .cdr | .get, .cdr | .mark, .cdr | .equal, .cdr | .fmt, .cdr => true
+  | .parse, .cdrPairs | .get, .cdrPairs | .mark, .cdrPairs | .equal, .cdrPairs
+  | .fmt, .cdrPairs => true
+  | .parse, .cdrDotted | .get, .cdrDotted | .mark, .cdrDotted | .equal, .cdrDotted
+  | .fmt, .cdrDotted => true
   | _, _ => false
+
+/-- the largest number of frames a bounded (function, direction) pair ever holds -/
+def loopBound : Nat := 6
 
 end Marwood.Depth
